@@ -38,7 +38,7 @@ BV(t) == IF t \in Narrow \cup {"i32"} THEN [k \in 1..13 |-> FromInt(Ints(t)[k], 
          ELSE IF t = "u32" THEN <<WZero(4), WOne(4), WOnes(4), <<0, 0, 0, 128>>, WFromNat(65536, 4), WFromNat(7, 4), WFromNat(31, 4),
                                   WFromNat(2, 4), WFromNat(65535, 4), WFromNat(2147483647, 4), <<1, 0, 0, 128>>,
                                   <<254, 255, 255, 255>>, WFromNat(32, 4)>>
-         ELSE IF t = "i64" THEN <<WZero(8), WOne(8), FromInt(-1, 8), <<255, 255, 255, 255, 255, 255, 255, 127>>,
+         ELSE IF t \in {"i64", "il"} THEN <<WZero(8), WOne(8), FromInt(-1, 8), <<255, 255, 255, 255, 255, 255, 255, 127>>,
                                   <<0, 0, 0, 0, 0, 0, 0, 128>>, <<0, 0, 0, 128, 0, 0, 0, 0>>, FromInt(-2147483647 - 1, 8),
                                   WFromNat(2, 8), FromInt(-2, 8), WFromNat(2147483647, 8), <<0, 0, 0, 0, 1, 0, 0, 0>>,
                                   <<1, 0, 0, 0, 0, 0, 0, 128>>, WFromNat(63, 8)>>
@@ -68,10 +68,19 @@ MaxInt == 2147483647
 Table(a, b) ==
     CASE a = b -> a
       [] {a, b} = {"i32", "u32"} -> "u32"       \* same rank: the unsigned type
-      [] {a, b} = {"i32", "i64"} -> "i64"       \* both signed: greater rank
-      [] {a, b} = {"i32", "u64"} -> "u64"       \* unsigned has greater rank
-      [] {a, b} = {"u32", "i64"} -> "i64"       \* long long represents all unsigned int values
+      [] {a, b} = {"i32", "il"} -> "il"         \* both signed: greater rank
+      [] {a, b} = {"i32", "ul"} -> "ul"         \* unsigned has greater rank
+      [] {a, b} = {"i32", "i64"} -> "i64"
+      [] {a, b} = {"i32", "u64"} -> "u64"
+      [] {a, b} = {"u32", "il"} -> "il"         \* long (64 bits) represents all unsigned int values
+      [] {a, b} = {"u32", "ul"} -> "ul"
+      [] {a, b} = {"u32", "i64"} -> "i64"
       [] {a, b} = {"u32", "u64"} -> "u64"
+      [] {a, b} = {"il", "ul"} -> "ul"
+      [] {a, b} = {"il", "i64"} -> "i64"
+      [] {a, b} = {"il", "u64"} -> "u64"
+      [] {a, b} = {"ul", "i64"} -> "u64"        \* long long cannot represent all unsigned long values: its unsigned type
+      [] {a, b} = {"ul", "u64"} -> "u64"
       [] {a, b} = {"i64", "u64"} -> "u64"
 LawTyping == HasLaw =>
     /\ Promote(ta) = (IF ta \in Narrow THEN "i32" ELSE ta)
@@ -144,7 +153,7 @@ LawCmpWidth == (HasLaw /\ Size(ta) <= 4 /\ Size(tb) <= 4) =>
        ELSE r = OkV(BoolV(CmpVal(op, Ext(ta, X), Ext(tb, Y), TRUE)))
 
 (* ---- 64-bit overflow detection against independent formulations --------------------- *)
-LawOvf64 == (HasLaw /\ ta = "i64" /\ tb = "i64") =>
+LawOvf64 == (HasLaw /\ ta \in {"i64", "il"} /\ tb \in {"i64", "il"}) =>
     /\ AddOvf(X, Y) <=> WAdd(Embed("i64", X), Embed("i64", Y)) # Embed("i64", WAdd(X, Y))
     /\ SubOvf(X, Y) <=> WSub(Embed("i64", X), Embed("i64", Y)) # Embed("i64", WSub(X, Y))
     /\ MulOvf(X, Y) <=> (~WIsZero(Y) /\ ((WIsMin(X) /\ WIsMinusOne(Y)) \/ WDiv(WMul(X, Y), Y, TRUE) # X))
@@ -154,7 +163,7 @@ LawOvf64 == (HasLaw /\ ta = "i64" /\ tb = "i64") =>
            /\ (WIsZero(m) \/ IsNegW(m) = IsNegW(X))                      \* truncation toward zero
            /\ WLtU(WAbs(m), WAbs(Y)))
     /\ (Unary("-", VX).st = "ok" <=> ~WIsMin(X))
-LawUnsigned64 == (HasLaw /\ ta = "u64" /\ tb \in {"u64", "i64", "i32", "c8"}) =>
+LawUnsigned64 == (HasLaw /\ ta = "u64" /\ tb \in {"u64", "i64", "ul", "il", "i32", "c8"}) =>
     \* 6.2.5p9: unsigned arithmetic never overflows; a signed operand of lower or equal rank is converted to unsigned
     /\ Arith("+", VX, VY) = OkV(IV("u64", WAdd(X, WResize(Y, 8, IsSigned(tb)))))
     /\ Arith("*", VX, VY) = OkV(IV("u64", WMul(X, WResize(Y, 8, IsSigned(tb)))))
